@@ -32,6 +32,7 @@
    any number and order: the selection read off the options), C04_e2e_scan, C04_e2e_same.
    Not covered: option lists with a metadata callback together with a window (C02_full covers the
    callback without window). *)
+From Mcap Require ConstsTie LayoutTie DecisionTieR. (* regenerated ties to /repo's source that this property's model relies on *)
 From Coq Require Import List NArith ZArith Bool Permutation Sorted.
 From Coq.Strings Require Import Byte.
 From Mcap Require Import Bytes GoSem Crc32 Records RecordsFacts Writer WriterFactsC Lexer LexSpec LexerFactsB
